@@ -1040,7 +1040,7 @@ class Interp:
             return self.models.resume(self, st, fr, cont[1], cont[2], rv)
         st.frames.pop()
         caller = st.frames[-1]
-        self.emit(st, caller, {'k': 'leave', 'key': fr.key})
+        self.emit(st, caller, {'k': 'leave', 'key': fr.key, 'ret': self.known_variant(st, rv)})
         self.gc_facts(st, rv)
         _, dest, target = cont
         self.store(st, dest, rv)
@@ -1064,6 +1064,18 @@ class Interp:
         # call yields the same outcome, so what is known about it stays valid for the whole path
         t = VAL[v]
         return t[0] == 'sym' and t[1] == 'app' and t[2].startswith('local::')
+
+    def known_variant(self, st, v):
+        """Index of the enum variant of a returned value when the state determines it (aggregate, or a
+        symbolic value already refined on this path); None otherwise."""
+        if v is None:
+            return None
+        t = VAL[v]
+        if t[0] == 'agg' and t[1] in ('std::result::Result', 'std::option::Option'):
+            return int(t[2][1:])
+        if t[0] == 'sym':
+            return st.facts.get(('var', v))
+        return None
 
     def gc_facts(self, st, extra):
         if not st.facts:
